@@ -43,14 +43,14 @@ EXPORT void destroy_LagrangeHalfCPolynomial_array(int32_t nbelts, LagrangeHalfCP
 EXPORT void LagrangeHalfCPolynomialClear(
 	LagrangeHalfCPolynomial* reps) {
     LagrangeHalfCPolynomial_IMPL* reps1 = (LagrangeHalfCPolynomial_IMPL*) reps;
-    const int32_t Ns2 = reps1->proc->Ns2;
+    const int32_t Ns2 = fp1024_fftw.Ns2;
     for (int32_t i=0; i<Ns2; i++) 
 	reps1->coefsC[i] = 0;
 }
 
 EXPORT void LagrangeHalfCPolynomialSetTorusConstant(LagrangeHalfCPolynomial* result, const Torus32 mu) {
     LagrangeHalfCPolynomial_IMPL* result1 = (LagrangeHalfCPolynomial_IMPL*) result;
-    const int32_t Ns2 = result1->proc->Ns2;
+    const int32_t Ns2 = fp1024_fftw.Ns2;
     cplx* b = result1->coefsC;
     const cplx muc = t32tod(mu);
     for (int32_t j=0; j<Ns2; j++)
@@ -59,7 +59,7 @@ EXPORT void LagrangeHalfCPolynomialSetTorusConstant(LagrangeHalfCPolynomial* res
 
 EXPORT void LagrangeHalfCPolynomialAddTorusConstant(LagrangeHalfCPolynomial* result, const Torus32 mu) {
     LagrangeHalfCPolynomial_IMPL* result1 = (LagrangeHalfCPolynomial_IMPL*) result;
-    const int32_t Ns2 = result1->proc->Ns2;
+    const int32_t Ns2 = fp1024_fftw.Ns2;
     cplx* b = result1->coefsC;
     const cplx muc = t32tod(mu);
     for (int32_t j=0; j<Ns2; j++)
@@ -68,9 +68,9 @@ EXPORT void LagrangeHalfCPolynomialAddTorusConstant(LagrangeHalfCPolynomial* res
 
 EXPORT void LagrangeHalfCPolynomialSetXaiMinusOne(LagrangeHalfCPolynomial* result, const int32_t ai) {
     LagrangeHalfCPolynomial_IMPL* result1 = (LagrangeHalfCPolynomial_IMPL*) result;
-    const int32_t Ns2 = result1->proc->Ns2;
-    const int32_t _2N = result1->proc->_2N;
-    const cplx* omegaxminus1 = result1->proc->omegaxminus1;
+    const int32_t Ns2 = fp1024_fftw.Ns2;
+    const int32_t _2N = fp1024_fftw._2N;
+    const cplx* omegaxminus1 = fp1024_fftw.omegaxminus1;
     for (int32_t i=0; i<Ns2; i++)
 	result1->coefsC[i]=omegaxminus1[((2*i+1)*ai)%_2N];
 }
@@ -81,7 +81,7 @@ EXPORT void LagrangeHalfCPolynomialMul(
 	const LagrangeHalfCPolynomial* a, 
 	const LagrangeHalfCPolynomial* b) {
     LagrangeHalfCPolynomial_IMPL* result1 = (LagrangeHalfCPolynomial_IMPL*) result;
-    const int32_t Ns2 = result1->proc->Ns2;
+    const int32_t Ns2 = fp1024_fftw.Ns2;
     cplx* aa = ((LagrangeHalfCPolynomial_IMPL*) a)->coefsC;
     cplx* bb = ((LagrangeHalfCPolynomial_IMPL*) b)->coefsC;
     cplx* rr = result1->coefsC;
@@ -96,7 +96,7 @@ EXPORT void LagrangeHalfCPolynomialAddMul(
 	const LagrangeHalfCPolynomial* b) 
 {
     LagrangeHalfCPolynomial_IMPL* result1 = (LagrangeHalfCPolynomial_IMPL*) accum;
-    const int32_t Ns2 = result1->proc->Ns2;
+    const int32_t Ns2 = fp1024_fftw.Ns2;
     cplx* aa = ((LagrangeHalfCPolynomial_IMPL*) a)->coefsC;
     cplx* bb = ((LagrangeHalfCPolynomial_IMPL*) b)->coefsC;
     cplx* rr = result1->coefsC;
@@ -112,7 +112,7 @@ EXPORT void LagrangeHalfCPolynomialSubMul(
 	const LagrangeHalfCPolynomial* b) 
 {
     LagrangeHalfCPolynomial_IMPL* result1 = (LagrangeHalfCPolynomial_IMPL*) accum;
-    const int32_t Ns2 = result1->proc->Ns2;
+    const int32_t Ns2 = fp1024_fftw.Ns2;
     cplx* aa = ((LagrangeHalfCPolynomial_IMPL*) a)->coefsC;
     cplx* bb = ((LagrangeHalfCPolynomial_IMPL*) b)->coefsC;
     cplx* rr = result1->coefsC;
@@ -124,7 +124,7 @@ EXPORT void LagrangeHalfCPolynomialAddTo(
 	LagrangeHalfCPolynomial* accum, 
 	const LagrangeHalfCPolynomial* a) {
     LagrangeHalfCPolynomial_IMPL* result1 = (LagrangeHalfCPolynomial_IMPL*) accum;
-    const int32_t Ns2 = result1->proc->Ns2;
+    const int32_t Ns2 = fp1024_fftw.Ns2;
     cplx* aa = ((LagrangeHalfCPolynomial_IMPL*) a)->coefsC;
     cplx* rr = result1->coefsC;
     for (int32_t i=0; i<Ns2; i++) 
